@@ -2,7 +2,11 @@
 // it builds the shipped binary from the tree the harness was compiled
 // against and enumerates start-up faults, informational flags, TTY/no TTY
 // and the normal ways of leaving the program, each as one short real process
-// under a fresh pseudo-terminal (or without any controlling terminal).
+// under a fresh pseudo-terminal (or without any controlling terminal).  A last
+// block repeats exits and a few late start-up faults with the standard input
+// redirected away from the terminal (/dev/null, a pipe, a regular file) while
+// the pty stays the controlling terminal: the mode of THAT terminal is what
+// has to come back.
 //
 // Nothing is simulated here: binary, kernel, pty and loopback TCP are real.
 package procsim
@@ -45,11 +49,30 @@ type Config struct {
 	Termios int    `json:"termios"` // termios variant the pty is put in before the start
 	Cache   string `json:"cache"`   // see Cache* (ignored with a cache fault)
 
+	// What the child's standard input is when it is not the terminal (see
+	// Stdin*; tty cases without an informational flag only).  The pty stays
+	// the controlling terminal, standard output and standard error.
+	Stdin string `json:"stdin,omitempty"`
+
 	// The certificate-cache family (cachefam.go) only.
 	CacheLoc string `json:"cache_loc,omitempty"` // see Loc*: where the cache file is
 	Missing  int    `json:"missing,omitempty"`   // directory levels on the way to it that do not exist yet
 	Umask    string `json:"umask,omitempty"`     // three octal digits: the umask the processes inherit
 }
+
+// Kinds of standard input (Config.Stdin).  The program talks to the terminal
+// through /dev/tty and its standard output, and reads the operator's keys from
+// its standard input: started as `curlrevshell </dev/null` (or from a pipe, or
+// from a file) it still has a terminal whose mode it changes and has to
+// return.
+const (
+	StdinTTY     = ""        // the terminal itself
+	StdinDevNull = "devnull" // /dev/null: end-of-file at once
+	StdinPipe    = "pipe"    // a pipe whose other end the harness holds: the keys are typed into it
+	StdinFile    = "file"    // a regular file holding the keys of the exit (if any); end-of-file after them
+)
+
+var stdinKinds = []string{StdinDevNull, StdinPipe, StdinFile}
 
 // Action kinds.
 const (
@@ -84,6 +107,11 @@ const (
 	// many files, Tab is typed and the program is left at once
 	ExitInsertCtrlD = "insert_ctrl_d" // "\t\x04" in one write
 	ExitInsertCtrlC = "insert_ctrl_c" // Tab, then Ctrl+C
+	// the redirected standard input ends (Config.Stdin only): /dev/null, an
+	// empty file, or the harness closes its end of the pipe.  The statement
+	// does not say the program leaves then; when it does, it is an exit by
+	// itself like any other.
+	ExitStdinEOF = "stdin_eof"
 )
 
 // UncreatablePath is a cache path whose directory exists but in which not
@@ -182,6 +210,63 @@ var normalExits = []struct{ how, cache string }{
 	{ExitInsertCtrlC, CacheFresh},
 }
 
+// redirectedExits are the normal-exit scenarios run with the standard input
+// redirected, each in redirectedVariants termios variants (cycling through
+// all of them).  What cannot be delivered through a kind of input is absent:
+// /dev/null only ends; a file holds one key and ends; the -one-shell
+// scenarios need an operator who types while the shell is there.
+var redirectedExits = []struct{ stdin, how, cache string }{
+	{StdinDevNull, ExitStdinEOF, CacheFresh},
+	{StdinPipe, ExitCtrlC, CacheFresh},
+	{StdinPipe, ExitCtrlD, CacheGood},
+	{StdinPipe, ExitStdinEOF, CacheDefault},
+	{StdinPipe, ExitOneShell, CacheFresh},
+	{StdinPipe, ExitOneShellBidir, CacheFresh},
+	{StdinFile, ExitCtrlC, CacheFresh},
+	{StdinFile, ExitCtrlD, CacheGood},
+	{StdinFile, ExitStdinEOF, CacheFresh},
+}
+
+const redirectedVariants = 2
+
+// redirectedFaults are the start-up faults run with the standard input
+// redirected: a few of those that are reached after the terminal has been put
+// into raw mode (listen address, certificate cache).
+func redirectedFaults() []Action {
+	return []Action{
+		{K: KFault, ID: FAddrUnparsable, V: 1},
+		{K: KFault, ID: FAddrInUse},
+		{K: KFault, ID: FCacheGarbage},
+		{K: KFault, ID: FCacheUncreatable},
+	}
+}
+
+// enumerateRedirected lists the cases with a redirected standard input (part
+// of the C20 enumeration, at its end).
+func enumerateRedirected() []caseSpec {
+	var out []caseSpec
+	k := 0
+	for _, re := range redirectedExits {
+		for i := 0; i < redirectedVariants; i++ {
+			out = append(out, caseSpec{
+				cfg:  Config{TTY: true, Termios: k % numTermiosVariants, Cache: re.cache, Stdin: re.stdin},
+				acts: []Action{{K: KExit, ID: re.how}},
+			})
+			k++
+		}
+	}
+	for _, kind := range stdinKinds {
+		for _, f := range redirectedFaults() {
+			out = append(out, caseSpec{
+				cfg:  Config{TTY: true, Termios: k % numTermiosVariants, Cache: CacheFresh, Stdin: kind},
+				acts: []Action{f},
+			})
+			k++
+		}
+	}
+	return out
+}
+
 // oneShellVariants is in how many termios variants a one-shell scenario is
 // run: the one that has to sit out the server's five-second grace for
 // silent connections only in two.
@@ -263,7 +348,76 @@ func enumerate(skipNoTTY bool) []caseSpec {
 			}
 		}
 	}
+	// standard input redirected away from the terminal (at the end: the
+	// numbering of everything above stays what it was)
+	out = append(out, enumerateRedirected()...)
 	return out
+}
+
+// stdinContent is what a StdinFile case's file holds: the key of the exit.
+func (cs *caseSpec) stdinContent() []byte {
+	if expect(cs).kind == expNormal {
+		switch cs.exitHow() {
+		case ExitCtrlC:
+			return []byte{0x03}
+		case ExitCtrlD:
+			return []byte{0x04}
+		}
+	}
+	return nil
+}
+
+// inputEndsByItself: the program's input is over without the harness doing
+// anything (there is nobody to type).
+func (cs *caseSpec) inputEndsByItself() bool {
+	return cs.cfg.Stdin == StdinDevNull || cs.cfg.Stdin == StdinFile
+}
+
+// validateStdin checks the standard-input part of a case.
+func (cs *caseSpec) validateStdin() string {
+	how, hasExit := "", false
+	for _, a := range cs.acts {
+		if a.K == KExit {
+			how, hasExit = a.ID, true
+		}
+	}
+	if cs.cfg.Stdin == StdinTTY {
+		if how == ExitStdinEOF {
+			return "the terminal as standard input does not end"
+		}
+		return ""
+	}
+	okKind := false
+	for _, k := range stdinKinds {
+		okKind = okKind || k == cs.cfg.Stdin
+	}
+	if !okKind {
+		return "unknown kind of standard input " + cs.cfg.Stdin
+	}
+	if !cs.cfg.TTY || cs.cfg.Info != InfoNone {
+		return "redirected standard input is for tty cases without an informational flag"
+	}
+	if cs.cfg.CacheLoc != "" || cs.cfg.Missing != 0 || cs.cfg.Umask != "" {
+		return "redirected standard input is not part of the certificate-cache family"
+	}
+	if !hasExit {
+		return ""
+	}
+	switch cs.cfg.Stdin {
+	case StdinDevNull:
+		if how != ExitStdinEOF {
+			return "nothing can be typed into /dev/null"
+		}
+	case StdinFile:
+		if how != ExitStdinEOF && how != ExitCtrlC && how != ExitCtrlD {
+			return "a file as standard input holds one key at most"
+		}
+	case StdinPipe:
+		if isLogExit(how) || isCacheExit(how) {
+			return "the log and cache families have the terminal as standard input"
+		}
+	}
+	return ""
 }
 
 // validate says why a (replayed) case cannot be executed, or "".
@@ -307,7 +461,7 @@ func (cs *caseSpec) validate() string {
 			}
 		case KExit:
 			exits++
-			if a.ID != ExitCtrlC && a.ID != ExitCtrlD && !isInsertExit(a.ID) && !isOneShell(a.ID) && !isLogExit(a.ID) && !isCacheExit(a.ID) {
+			if a.ID != ExitCtrlC && a.ID != ExitCtrlD && a.ID != ExitStdinEOF && !isInsertExit(a.ID) && !isOneShell(a.ID) && !isLogExit(a.ID) && !isCacheExit(a.ID) {
 				return "unknown exit " + a.ID
 			}
 		default:
@@ -318,6 +472,9 @@ func (cs *caseSpec) validate() string {
 		return "more than one exit action"
 	}
 	if why := cs.validateCache(); why != "" {
+		return why
+	}
+	if why := cs.validateStdin(); why != "" {
 		return why
 	}
 	// without a TTY is itself the fault "notty": the two must agree, so the
